@@ -9,6 +9,8 @@ From Crusta Require Import Model.Readers Model.Writers.
 From Crusta Require Import Sat.Dpll Sat.Dimacs Model.SatObjects Model.Pipe.
 From Crusta Require Import Model.Cli.
 From Crusta Require Import Spec.AF Sat.Cnf Sat.Prog Model.Store Model.Encoders Model.Graph Model.Solvers Model.Dynamic.
+(* the label route of the solvers (definitions only; imports Model.Store and Model.Graph only) *)
+From Crusta Require Import Proofs.LabelRouteDefs.
 Extraction Language OCaml.
 Separate Extraction
   (* spec oracle *)
@@ -47,5 +49,10 @@ Separate Extraction
   Cli.read_problem_string Cli.wrapper_argv Cli.run_script Cli.parse_answer Cli.beqb Store.new_attack
   (* dynamic solvers *)
   Dynamic.dyn_new Dynamic.dyn_update Dynamic.dyn_query
+  (* label route (C04labels): component stores and the two translations through labels *)
+  Graph.remaining_ccs Graph.next_cc
+  LabelRouteDefs.arg_of LabelRouteDefs.label_of LabelRouteDefs.labels_of LabelRouteDefs.get_argument_ref
+  LabelRouteDefs.comp_store LabelRouteDefs.comp_stores LabelRouteDefs.to_local_lab LabelRouteDefs.to_global_lab
+  LabelRouteDefs.locals_lab LabelRouteDefs.lift_lab LabelRouteDefs.with_labels LabelRouteDefs.glue_lab
   (* (new roots go above this line; the terminating period stays alone on the next line) *)
 .
